@@ -178,6 +178,94 @@ def f(x: FLOAT[...], axis: int = 0, keep: int = 1):
     return op.ReduceSum(x, [0], keepdims=keep) + op.Concat(x, x, axis=axis)[0:1]
 ''', ["x:F:2,2"], [{}, {"keep": 0}, {"axis": 1}])
 
+P("attr_default_in_branch", '''
+@script()
+def f(x: FLOAT[...], alpha: float = 2.5, k: int = 3):
+    if op.ReduceSum(x, keepdims=0) > 1.0:
+        y = x * alpha
+    else:
+        y = x - op.Cast(k, to=1)
+    return y
+''', ["x:F:3", "x:F:1"], [{}, {"alpha": -0.5}, {"k": 0}])
+
+P("attr_default_in_loop_body", '''
+@script()
+def f(x: FLOAT[...], n: INT64, alpha: float = 0.5, stop: float = 6.0):
+    acc = x
+    for i in range(n):
+        acc = acc * alpha + 1.0
+        c = op.ReduceSum(acc, keepdims=0) < stop
+        if c:
+            break
+    return acc
+''', ["x:F:2 n:I:"], [{}, {"alpha": 2.0}, {"stop": 0.0}])
+
+P("attr_default_as_op_attribute_in_branch", '''
+@script()
+def f(x: FLOAT[...], c: BOOL, axis: int = 1, keep: int = 0):
+    if c:
+        y = op.ReduceSum(op.Concat(x, x, axis=axis), [0], keepdims=keep)
+    else:
+        y = op.ReduceSum(x, [1], keepdims=keep) * 2.0
+    return y
+''', ["x:F:2,2 c:B:"], [{}, {"axis": 0}, {"keep": 1}])
+
+P("attr_default_in_nested_if_in_while", '''
+@script()
+def f(x: FLOAT[...], alpha: float = 1.5):
+    t = x
+    c = op.ReduceSum(t, keepdims=0) < 8.0
+    while c:
+        if op.ReduceSum(t, keepdims=0) > 2.0:
+            t = t * alpha + 1.0
+        else:
+            t = t + alpha
+        c = op.ReduceSum(t, keepdims=0) < 8.0
+    return t
+''', ["x:F:2"], [{}, {"alpha": 3.0}])
+
+P("attr_default_forwarded_to_subfunction_in_branch", '''
+@script()
+def scale(a: FLOAT[...], s: float = 1.0):
+    return a * s
+
+@script()
+def f(x: FLOAT[...], c: BOOL, alpha: float = 4.0):
+    if c:
+        y = scale(x, s=alpha)
+    else:
+        y = scale(x)
+    return y
+''', ["x:F:2 c:B:"], [{}, {"alpha": -1.0}])
+
+P("alias_of_outer_value_in_nested_if", '''
+@script()
+def f(x: FLOAT[...], c: BOOL, d: BOOL):
+    t = x * 2.0
+    y = x
+    if c:
+        if d:
+            y = t
+        else:
+            y = x + 1.0
+    else:
+        y = x - 1.0
+    return y + t
+''', ["x:F:2 c:B: d:B:"])
+
+P("alias_of_outer_value_in_if_in_loop", '''
+@script()
+def f(x: FLOAT[...], n: INT64, d: BOOL):
+    t = op.Abs(x)
+    y = x
+    for i in range(n):
+        if d:
+            y = t
+        else:
+            y = y + 1.0
+    return y - t
+''', ["x:F:2 n:I: d:B:"])
+
 # ---------------------------------------------------------------- if / else
 P("if_both", '''
 @script()
@@ -653,6 +741,8 @@ class Gen:
         v = self.pick(ty)
         if ty == "F":
             lit = r.choice(["0.5", "2.0", "-1.0", "3", "0.25"])
+            if getattr(self, "attr_alpha", False) and r.random() < 0.2:
+                lit = "alpha"  # attribute parameter used wherever an expression occurs (nested blocks included)
             if depth >= 2 or r.random() < 0.25:
                 return v
             k = r.randrange(11)
